@@ -83,6 +83,10 @@ type spec struct {
 	// tip exactly once after the last connection / late operation (the relays the code itself
 	// sends after a sync are all that carries a chain further than one hop)
 	announce string
+	// connTimeout: every node runs with this (short but valid) WithConnectTimeout, and the late
+	// operations only happen once it has passed on every link: a handshake deadline must not
+	// outlive the handshake
+	connTimeout time.Duration
 }
 
 func edgesOf(topo string, n int) [][2]int {
@@ -271,6 +275,16 @@ func coreSpecs() []spec {
 		}
 		add(sp)
 	}
+	// links that are used again after the (short) connect timeout has long passed: a new block,
+	// a late joiner with a heavier chain that has to travel over the old links
+	add(spec{name: "core-idle-link-then-block-v2", mainLen: 14, branches: []branch{m(14), m(14), m(14)}, topo: "line",
+		late: []lateOp{{node: 0, n: 2}}, connTimeout: time.Second, flip: []bool{false, true}})
+	add(spec{name: "core-idle-link-then-block-v1", mainLen: 3, branches: []branch{m(3), m(3)}, topo: "line",
+		late: []lateOp{{node: 1, n: 1, v1: true}}, connTimeout: time.Second, announce: "once"})
+	add(spec{name: "core-idle-link-then-joiner", mainLen: 22, branches: []branch{m(22), f(12, 3, 2*time.Second), like(1), like(1)}, topo: "line",
+		lateEdges: []int{0}, connTimeout: time.Second, flip: []bool{true, false, true}})
+	add(spec{name: "core-idle-link-then-pool-outline", mainLen: 7, branches: []branch{m(7), m(7), m(7)}, topo: "star",
+		late: []lateOp{{node: 1, n: 1, pool: true}}, connTimeout: 1500 * time.Millisecond})
 	// small request sizes (every node started with the same WithMaxSendBlocks)
 	add(spec{name: "core-sendcap-3", mainLen: 16, branches: []branch{m(16), m(2), f(9, 4, 2*time.Second)}, topo: "line", sendCap: 3})
 	add(spec{name: "core-sendcap-1", mainLen: 14, branches: []branch{f(3, 5, 2*time.Second), m(14)}, topo: "line", sendCap: 1})
@@ -355,6 +369,10 @@ func randomSpec(rng *vh.RNG, i int) spec {
 		if rng.Bool() {
 			s.announce = "once"
 		}
+	}
+	// staged specs: sometimes with a short connect timeout that passes before the second stage
+	if (len(s.lateEdges) > 0 || len(s.late) > 0) && rng.Chance(2, 5) {
+		s.connTimeout = time.Duration(1000+rng.Intn(800)) * time.Millisecond
 	}
 	return s
 }
@@ -554,6 +572,10 @@ func runSpec(s spec, ip string) *vh.Case {
 		opts = append(opts, syncer.WithMaxSendBlocks(s.sendCap))
 		c.Tags = append(c.Tags, fmt.Sprintf("sendcap:%d", s.sendCap))
 	}
+	if s.connTimeout > 0 {
+		opts = append(opts, syncer.WithConnectTimeout(s.connTimeout))
+		c.Tags = append(c.Tags, "connect-timeout:"+s.connTimeout.String())
+	}
 	nodes := make([]*nodeRec, n)
 	for i := range chains {
 		var nd *netx.Node
@@ -602,6 +624,7 @@ func runSpec(s spec, ip string) *vh.Case {
 		isLate[k] = true
 	}
 	degree := make([]int, n)
+	var lastConnect time.Time
 	connect := func(late bool) {
 		for _, k := range order {
 			if isLate[k] != late {
@@ -612,9 +635,18 @@ func runSpec(s spec, ip string) *vh.Case {
 			if k < len(s.flip) && s.flip[k] {
 				a, b = b, a
 			}
-			ctx, cancel := context.WithTimeout(context.Background(), 5*time.Second)
-			_, err := nodes[a].n.S.Connect(ctx, nodes[b].n.Addr())
-			cancel()
+			var err error
+			for try := 0; try < 3; try++ {
+				ctx, cancel := context.WithTimeout(context.Background(), 5*time.Second)
+				_, err = nodes[a].n.S.Connect(ctx, nodes[b].n.Addr())
+				cancel()
+				if err == nil || s.connTimeout == 0 {
+					// (a short connect timeout may expire on a loaded machine: the dial is repeated)
+					break
+				}
+				time.Sleep(200 * time.Millisecond)
+			}
+			lastConnect = time.Now()
 			if err != nil {
 				c.Oracle("harness-connect", "connect %d->%d: %v", a, b, err)
 			}
@@ -659,6 +691,10 @@ func runSpec(s spec, ip string) *vh.Case {
 		})
 		if !ok {
 			c.Oracle("settle-phase-stalled", "the first-stage network (%d edges) did not settle (all peers marked synced) within 25 s", len(es)-len(s.lateEdges))
+		}
+		if s.connTimeout > 0 {
+			// let the handshake deadline of every link pass while the links are idle
+			time.Sleep(time.Until(lastConnect.Add(s.connTimeout + 700*time.Millisecond)))
 		}
 		connect(true)
 		for _, op := range s.late {
@@ -766,6 +802,17 @@ func runSpec(s spec, ip string) *vh.Case {
 		time.Sleep(40 * time.Millisecond)
 	}
 	final := curTips()
+	// every link of the topology was established between honest nodes, nobody closed one and nobody
+	// misbehaved: it must still be there
+	if s.connTimeout > 0 {
+		time.Sleep(time.Until(lastConnect.Add(s.connTimeout + 700*time.Millisecond)))
+	}
+	for i, nr := range nodes {
+		if got := len(nr.n.S.Peers()); got < degree[i] {
+			c.Oracle("peer-lost-without-cause", "node %d has %d of its %d links left although no node closed a connection or misbehaved (bans: %v)", i, got, degree[i], nr.n.Store.Bans())
+			break
+		}
+	}
 	close(stop)
 	awg.Wait()
 
